@@ -126,7 +126,7 @@ func canon(v any) string {
 func generated(c *lib.Ctx) error {
 	depth := c.Pick(2, 3)
 	c.Set("gen_depth", depth)
-	cfg := fmt.Sprintf("CONSTANT Depth = %d\nSPECIFICATION Spec\nINVARIANT FinallyRuns\nINVARIANT ElseIffNoThrow\nINVARIANT BreakContained\nINVARIANT ReturnContained\nINVARIANT LogicOneValue\nINVARIANT CaptureTotal\nINVARIANT ChunkStops\nINVARIANT Emit\n", depth)
+	cfg := fmt.Sprintf("CONSTANT Depth = %d\nSPECIFICATION Spec\nINVARIANT FinallyRuns\nINVARIANT ElseIffNoThrow\nINVARIANT BreakContained\nINVARIANT ReturnContained\nINVARIANT LogicOneValue\nINVARIANT CaptureTotal\nINVARIANT ChunkStops\nINVARIANT Restored\nINVARIANT DeferRuns\nINVARIANT Emit\n", depth)
 	r, err := c.TLC("GenElvCore", lib.TLCRun{Dir: c.SpecDir("ElvCore"), Module: "GenElvCore", Workers: 6, Timeout: 12 * time.Minute, HeapGB: 8,
 		Files: map[string][]byte{"GenElvCore.cfg": []byte(cfg)}})
 	if err != nil {
